@@ -206,7 +206,7 @@ class Resolver:
         for _ in range(6):
             sd = body.single_def(l)
             if sd is None:
-                return None
+                return self._merged_flag_facts(bi, l, neg)
             rv = sd[2]
             if rv.get("k") == "use" and op_place(rv["a"]) and is_local(op_place(rv["a"])):
                 l = op_place(rv["a"])["l"]
@@ -229,6 +229,49 @@ class Resolver:
             f_facts = [(None, ln, -1)]
         else:
             return None
+        if neg:
+            f_facts, t_facts = t_facts, f_facts
+        return f_facts, t_facts
+
+    def _rv_facts(self, rv):
+        """(false facts, true facts) of a comparison / emptiness rvalue, or None."""
+        if rv.get("k") == "binop" and rv["op"] in ("Lt", "Le", "Gt", "Ge", "Eq", "Ne"):
+            t_facts, f_facts = cmp_facts(rv["op"], self.lin(rv["a"]), self.lin(rv["b"]))
+            return f_facts, t_facts
+        if rv.get("k") == "call" and callee_is(rv["t"], *EMPTY_CALLEES):
+            ln = ("len", self.slice_key(rv["t"]["args"][0]))
+            return [(None, ln, -1)], [(ln, None, 0)]
+        return None
+
+    def _merged_flag_facts(self, bi, l, neg, depth=0):
+        """`let ok = a && b;` (a flag that is a constant in every arm but one, not assigned in a loop, not borrowed
+        mutably): on the edge where the flag has the other truth value, the computed arm was taken - what guards that arm
+        holds, and the computed value has that truth value."""
+        body = self.body
+        if depth > 3 or 1 <= l <= body.arg_count or l in body.mut_borrowed_locals():
+            return None
+        defs = body.defs().get(l, [])
+        consts = [d for d in defs if d[2].get("k") == "use" and const_int(d[2]["a"]) in (0, 1)]
+        comp = [d for d in defs if d not in consts]
+        if len(defs) < 2 or len(comp) != 1 or len({const_int(d[2]["a"]) for d in consts}) != 1 or any(body.in_loop(d[0]) for d in defs) or comp[0][2].get("k") == "partial":
+            return None
+        cv = bool(const_int(consts[0][2]["a"]))
+        db, _di, rv = comp[0]
+        # the computed value may itself be a copy of another such flag
+        own = self._rv_facts(rv)
+        inherited, _g = collect_facts(self, db)
+        # facts inherited from the guards of the computed arm must still hold at the switch: none of their variables is
+        # redefined between the arm and the switch
+        on_path = {x for x in body.reachable_from(db, include_start=True) if x >= 0 and (x == bi or bi in body.reachable_from(x))}
+        alldefs = body.defs()
+        kept = []
+        for fct in inherited:
+            vs = var_locals(fct[0]) | var_locals(fct[1])
+            if not any(d[0] in on_path and d[0] != db for v in vs for d in alldefs.get(v, [])):
+                kept.append(fct)
+        side = list(kept) + (list(own[0] if cv else own[1]) if own is not None else [])
+        # flag == !cv: `side` holds; flag == cv: nothing is known
+        f_facts, t_facts = ([], side) if not cv else (side, [])
         if neg:
             f_facts, t_facts = t_facts, f_facts
         return f_facts, t_facts
